@@ -726,6 +726,14 @@ def h5_attr_value_for_copy(val):
             val.encode("utf-8")
         except UnicodeEncodeError:
             return val.encode("utf-8", "surrogateescape")
+    if isinstance(val, np.ndarray) and val.dtype.kind == "O":
+        # array of variable-length strings: the same holds for each element
+        fixed = [h5_attr_value_for_copy(x) for x in val.ravel().tolist()]
+        if any(isinstance(x, bytes) for x in fixed):
+            fixed = [x.encode("utf-8") if isinstance(x, str) else x for x in fixed]
+            ret = np.empty(len(fixed), dtype=object)
+            ret[:] = fixed
+            return ret.reshape(val.shape)
     return val
 
 
